@@ -92,6 +92,7 @@ var (
 	verifSymbolicResponse bool
 	verifLastEncoded      []byte
 )
+
 func verifJSONUnmarshal14(data []byte, v interface{}) error {
 	switch t := v.(type) {
 	case *messages.ClientPollRequest:
